@@ -1233,11 +1233,56 @@ class Interp:
         rec(0, fr)
 
     def e_ListComp(self, e, frame):
+        if isinstance(e, ast.ListComp) and len(e.generators) == 1 and not e.generators[0].is_async:
+            g = e.generators[0]
+            itv = self.expr(g.iter, frame)
+            if isinstance(itv, SymIterable):
+                return self.symbolic_listcomp(e, g, itv, frame)
         out = []
         self.comp(e.generators, frame, lambda fr: out.append(self.expr(e.elt, fr)))
         return out
 
-    e_GeneratorExp = e_ListComp
+    def e_GeneratorExp(self, e, frame):
+        out = []
+        self.comp(e.generators, frame, lambda fr: out.append(self.expr(e.elt, fr)))
+        return out
+
+    _COMP_ORDINALS = {}
+
+    def comp_ordinal(self, e, frame):
+        """1-based position of this list comprehension among those of its function, in source order"""
+        if id(e) not in Interp._COMP_ORDINALS:
+            fn_node = frame_function_node(frame)
+            if fn_node is None:
+                return 0
+            comps = sorted((n for n in ast.walk(fn_node) if isinstance(n, ast.ListComp)), key=lambda n: (n.lineno, n.col_offset))
+            for k, n in enumerate(comps, 1):
+                Interp._COMP_ORDINALS[id(n)] = k
+        return Interp._COMP_ORDINALS.get(id(e), 0)
+
+    def symbolic_listcomp(self, e, g, itv, frame):
+        """[elt for target in <symbolic list> if conds]  is executed as the loop
+               __comp = [];  for target in <list>:  if conds: __comp.append(elt)
+        under the loop contract registered for (function, ('comp', ordinal))."""
+        k = self.comp_ordinal(e, frame)
+        h = self.loop_hooks.get((frame.qualname, ("comp", k)))
+        if h is None:
+            raise Inapplicable(f"list comprehension {k} of {frame.qualname} over a symbolic sequence has no invariant")
+        app = ast.Expr(value=ast.Call(func=ast.Attribute(value=ast.Name(id="__comp", ctx=ast.Load()), attr="append", ctx=ast.Load()),
+                                      args=[e.elt], keywords=[]))
+        body = [app]
+        if g.ifs:
+            test = g.ifs[0] if len(g.ifs) == 1 else ast.BoolOp(op=ast.And(), values=list(g.ifs))
+            body = [ast.If(test=test, body=[app], orelse=[])]
+        loop = ast.For(target=g.target, iter=g.iter, body=body, orelse=[])
+        ast.copy_location(loop, e)
+        ast.fix_missing_locations(loop)
+        fr = Frame(frame.globals, frame, frame.qualname)
+        fr.locals["__comp"] = []
+        r = h(self, loop, fr, itv)
+        if r is NotImplemented:
+            raise Inapplicable("loop contract declined the comprehension")
+        return fr.locals["__comp"]
 
     def e_SetComp(self, e, frame):
         out = set()
